@@ -1,0 +1,76 @@
+// Copyright (c) 2026 10X Genomics, Inc. All rights reserved.
+
+//go:build verif
+
+package core
+
+// Further exports for the external verification harness (property C11):
+// job attempts (uniquified metadata directories) and their reset.  This file
+// is only compiled with `-tags verif`.
+
+import "fmt"
+
+// VerifAttempt is the identity of the current attempt of one job.
+type VerifAttempt struct {
+	Uniquifier string // Metadata.uniquifier
+	Path       string // the metadata directory of the attempt
+	RunFile    string // Metadata.journalFile(): the journal prefix given to mrjob
+}
+
+// Attempt reports the current attempt of a job.
+func (w *VerifWorld) Attempt(fqid string, fork int, job string, chunk int) (VerifAttempt, error) {
+	m := w.jobMetadata(fqid, fork, job, chunk)
+	if m == nil {
+		return VerifAttempt{}, fmt.Errorf("no such job")
+	}
+	return VerifAttempt{Uniquifier: m.uniquifier, Path: m.path, RunFile: m.journalFile()}, nil
+}
+
+// StartAttempt creates the directories of a fresh attempt of the job the
+// way the runtime does before it launches it (fork directories, then
+// Metadata.uniquify).
+func (w *VerifWorld) StartAttempt(fqid string, fork int, job string, chunk int) (a VerifAttempt, err error) {
+	defer func() {
+		if r := recover(); r != nil {
+			err = fmt.Errorf("panic: %v", r)
+		}
+	}()
+	m := w.jobMetadata(fqid, fork, job, chunk)
+	if m == nil {
+		return a, fmt.Errorf("no such job")
+	}
+	f := w.top.allNodes[fqid].forks[fork]
+	if err := f.metadata.mkForkDirs(); err != nil {
+		return a, err
+	}
+	if err := m.uniquify(); err != nil {
+		return a, err
+	}
+	return w.Attempt(fqid, fork, job, chunk)
+}
+
+// ResetFork runs Fork.resetPartial (what Node.reset does for every fork of
+// a failed node when a pipestance is retried): every failed split / chunk /
+// join job of the fork is reset for a new attempt.
+func (w *VerifWorld) ResetFork(fqid string, fork int) (err error) {
+	defer func() {
+		if r := recover(); r != nil {
+			err = fmt.Errorf("panic: %v", r)
+		}
+	}()
+	n := w.top.allNodes[fqid]
+	if n == nil || fork < 0 || fork >= len(n.forks) {
+		return fmt.Errorf("no such fork")
+	}
+	return n.forks[fork].resetPartial()
+}
+
+// JobState reports the metadata state of a job ("failed", "complete", ...).
+func (w *VerifWorld) JobState(fqid string, fork int, job string, chunk int) string {
+	m := w.jobMetadata(fqid, fork, job, chunk)
+	if m == nil {
+		return ""
+	}
+	s, _ := m.getState()
+	return string(s)
+}
